@@ -570,16 +570,22 @@ def h_havoc(eng, st: State, text: str):
                 raise Unsupported(f"ghost variable {node.attr} has no declared type")
             g.f[node.attr] = fresh(eng, st, ty, "ghost." + node.attr)
             return
-        if isinstance(base, VRef):
-            o = st.heap[base.oid]
-            cs = eng.class_specs.get(o.cls)
-            if cs is None:
-                raise Unsupported(f"modifies on instance without class spec: {text}")
-            names = list(cs.fields) if node.attr == "__all__" else [node.attr]
-            for nm in names:
-                if cs.fields.get(nm) is None:
-                    continue
-                o.f[nm] = fresh(eng, st, cs.fields[nm], f"{text.split('.')[0]}.{nm}")
+        refs = [a for _, a in base.alts if isinstance(a, VRef)] if isinstance(base, VUnion) else ([base] if isinstance(base, VRef) else [])
+        if isinstance(base, VUnion) and all(isinstance(a, (VRef, VNoneT)) for _, a in base.alts):
+            pass
+        elif not isinstance(base, VRef):
+            refs = None
+        if refs is not None:
+            for ref in refs:
+                o = st.heap[ref.oid]
+                cs = eng.class_specs.get(o.cls)
+                if cs is None:
+                    raise Unsupported(f"modifies on instance without class spec: {text}")
+                names = list(cs.fields) if node.attr == "__all__" else [node.attr]
+                for nm in names:
+                    if cs.fields.get(nm) is None:
+                        continue
+                    o.f[nm] = fresh(eng, st, cs.fields[nm], f"{text.rsplit('.', 1)[0]}.{nm}")
             return
     raise Unsupported(f"modifies target {text}")
 
